@@ -451,6 +451,14 @@ pub fn check(spec: &CheckSpec, tier: Tier) -> i32 {
             .unwrap_or_default();
         println!("KNOWN-FINDING: {text} (hit {n} times in this batch)");
     }
+    if let Some(n) = agg
+        .counters
+        .get("other.pool_execution_bypassed_the_executor_seam")
+    {
+        println!(
+            "WARNING: {n} pool executions produced no executor events: the parallel fan-out no longer goes through the simulated executor, schedules are not being explored for them"
+        );
+    }
     write_evidence(spec, tier, seed, &agg, wall, violations, total);
     println!(
         "runs={} executions={} steps={} distinct_schedules={} wall={:.1}s batch_hash={:016x}{}",
